@@ -47,6 +47,10 @@ class Kind(enum.Enum):
 class Rank(enum.Enum):
     lo = 1
     hi = 2
+class Swap(enum.Enum):
+    A = 'B'
+    B = 'A'
+    C = 'C'
 class Sub(Schema):
     n: int
     when: Optional[datetime] = None
@@ -56,7 +60,7 @@ FIELD_TYPES = ["int", "float", "str", "bool", "Optional[int]", "bytes", "Decimal
                "List[int]", "List[datetime]", "Set[int]", "Set[Color]", "Tuple[int, str]", "Tuple[datetime, ...]", "Dict[str, int]", "Dict[str, timedelta]",
                "Sub", "List[Sub]", "Optional[Sub]", "Dict[str, Decimal]", "List[Optional[float]]",
                "Dict[int, str]", "Optional[datetime]", "List[List[int]]", "Dict[str, List[date]]", "List[time]", "Dict[str, Sub]", "List[UUID]", "Tuple[date, time, timedelta]",
-               "List[bytes]", "Set[str]", "List[Decimal]", "Kind", "Rank", "Set[Kind]", "Set[Rank]", "Set[Optional[int]]", "Set[date]", "Set[UUID]", "Dict[str, Kind]"]
+               "List[bytes]", "Set[str]", "List[Decimal]", "Kind", "Rank", "Set[Kind]", "Set[Rank]", "Set[Optional[int]]", "Set[date]", "Set[UUID]", "Dict[str, Kind]", "Swap", "List[Swap]"]
 
 
 def tzs(rng):
@@ -95,8 +99,10 @@ def gen_value(rng, ann, ns):
         return uuid.UUID(int=rng.getrandbits(128))
     if ann == "Color":
         return rng.choice(list(ns["Color"]))
-    if ann in ("Level", "Kind", "Rank"):
+    if ann in ("Level", "Kind", "Rank", "Swap"):
         return rng.choice(list(ns[ann]))
+    if ann == "List[Swap]":
+        return [rng.choice(list(ns["Swap"])) for _ in range(rng.randint(0, 3))]
     if ann in ("Set[Kind]", "Set[Rank]"):
         return set(rng.sample(list(ns[ann[4:-1]]), rng.randint(0, 2)))
     if ann == "Set[Optional[int]]":
@@ -214,6 +220,8 @@ def lexical(kind, raw):
         return {"lex": "unknown:" + raw[:20], "offset": "none", "frac": False}
     if kind == "decimal":
         return {"lex": "numeric-string", "offset": "none", "frac": False}
+    if kind == "enum" and raw in ("A", "B"):        # Swap: the value written is the name of the other member
+        return {"lex": "json-string-naming-another-member", "offset": "none", "frac": False}
     return {"lex": "json-string", "offset": "none", "frac": False}
 
 
@@ -226,13 +234,15 @@ def shape_of(kind, v):
         return {"tz": "naive", "frac": "ms" if v.microsecond else "none"}
     if kind == "timedelta":
         return {"sign": "neg" if v < datetime.timedelta(0) else "pos", "days": abs(v).days != 0, "frac": abs(v).microseconds != 0}
+    if kind == "enum":
+        return {"form": "value-names-another-member" if type(v).__name__ == "Swap" and v.value != v.name else "plain"}
     if kind == "decimal":
         return {"form": "beyond53" if abs(v) > 9007199254740991 else "integral" if v.as_tuple().exponent == 0 else "fractional"}
     return {"form": "plain"}
 
 
 KIND_OF = {"int": "int", "float": "float", "str": "str", "bool": "bool", "bytes": "bytes", "Decimal": "decimal", "date": "date", "datetime": "datetime", "time": "time",
-           "timedelta": "timedelta", "UUID": "uuid", "Color": "enum", "Level": "enum", "Kind": "enum", "Rank": "enum"}
+           "timedelta": "timedelta", "UUID": "uuid", "Color": "enum", "Level": "enum", "Kind": "enum", "Rank": "enum", "Swap": "enum"}
 
 
 def values_of_shape(kind, sh, rng):
@@ -269,14 +279,18 @@ def shape_replay(ck, rng, JSONEncoder):
         pairs = [json.loads(l) for l in open(out) if l.strip()]
     finally:
         shutil.rmtree(d, ignore_errors=True)
-    ann = {"datetime": "datetime", "time": "time", "timedelta": "timedelta", "decimal": "Decimal", "date": "date"}
+    ann = {"datetime": "datetime", "time": "time", "timedelta": "timedelta", "decimal": "Decimal", "date": "date", "enum": "Swap"}
     recs = []
     for pi, p in enumerate(pairs):
         ns = {}
         exec(PRELUDE, ns)
         exec("class T(Schema):\n    f0: %s\n" % ann[p["kind"]], ns)
         T = ns["T"]
-        for vi, v in enumerate(values_of_shape(p["kind"], p["shape"], rng)):
+        if p["kind"] == "enum":
+            values = [ns["Swap"].C] if p["shape"]["form"] == "plain" else [ns["Swap"].A, ns["Swap"].B]
+        else:
+            values = values_of_shape(p["kind"], p["shape"], rng)
+        for vi, v in enumerate(values):
             if shape_of(p["kind"], v) != p["shape"]:
                 raise MachineryError("concretisation of %s %s produced a value of shape %s" % (p["kind"], p["shape"], shape_of(p["kind"], v)))
             inst = T(f0=v)
@@ -294,6 +308,10 @@ def shape_replay(ck, rng, JSONEncoder):
     return recs
 
 
+def bad_const_(c):
+    raise ValueError("non-standard JSON constant " + c)
+
+
 def main():
     ck = Check("C14", level="exploration")
     thorough = ck.tier == "thorough"
@@ -306,7 +324,10 @@ def main():
     mo = tlc.run("MC_Codec", "MC_Codec_orig.cfg")
     if not mo.invariant_violated:
         raise MachineryError("P_ShapeRoundTrips not refuted on Variant=orig")
-    ck.count("orig_variant_refuted_by_TLC")
+    mn = tlc.run("MC_Codec", "MC_Codec_namefirst.cfg")
+    if not mn.invariant_violated:
+        raise MachineryError("P_ShapeRoundTrips not refuted on EnumLookup=name-first")
+    ck.count("orig_variant_refuted_by_TLC", 2)
     from utype import JSONEncoder
     records, n = shape_replay(ck, rng, JSONEncoder), 0
     for ci in range(2500 if thorough else 90):
@@ -369,6 +390,19 @@ def main():
             r["decoded"] = False
         records.append({"id": "c14-%d" % n, "r": r, "forms": [], "types": ["int", "Optional[date]"], "text": text[:300],
                         "witness": "attribute-based-data-class"})
+    # the domain of the statement is "float except NaN": the infinities belong to it; fixed witnesses
+    exec("class WF(Schema):\n    f0: float\n", ns)
+    for v in (float("inf"), float("-inf")):
+        inst = ns["WF"](f0=v)
+        n += 1
+        r = {"encoded": True, "stdjson": True, "decoded": True, "cin": canon(inst), "cout": "", "exc": ""}
+        text = json.dumps(inst, cls=JSONEncoder)
+        try:
+            json.loads(text, parse_constant=bad_const_)
+            r["cout"] = canon(ns["WF"].__from__(text))
+        except ValueError as e:
+            r["stdjson"], r["exc"] = False, str(e)[:60]
+        records.append({"id": "c14-%d" % n, "r": r, "forms": [], "types": ["float"], "text": text[:300], "witness": "float-infinity"})
     byid = {x["id"]: x for x in records}
     res = tlc.judge("Trace_Codec", "Trace_Codec.cfg", [{k: v for k, v in x.items() if k not in ("text", "witness")} for x in records], workers=8)
     ck.mc(res, "Trace")
@@ -394,7 +428,7 @@ def main():
                "8-12 random instances each from the JSON-faithful domain; distinct_nontrivial = distinct instances (canonical text)")
     ck.trusted = ["TLC 1.8", "canonical text of instances (harness/drivers/c14.py: exact fractions, UTC instants)", "json.loads with parse_constant as the "
                   "check for standard JSON", "form classification regexes"]
-    ck.assumptions = ["JSON-faithful domain of the statement: float except NaN/inf, Decimal up to 15 significant digits or integral, time to millisecond precision"]
+    ck.assumptions = ["JSON-faithful domain of the statement; random floats are finite (the infinities are two fixed witnesses: known finding), Decimal up to 15 significant digits or integral, time to millisecond precision"]
     return ck.finish()
 
 
